@@ -98,8 +98,8 @@ def step (op : String) (gs : List (List Int)) : String :=
     if kind = 0 then okG [[b2i (resolves T.modules (modelTarget n))]]
     else if kind = 1 then okG [[b2i (lookupSchema T (modelConfigTarget n)).isSome]]
     else if kind = 2 then okG [[b2i (resolves T.modules (engineTarget n none))]]
-    else if kind = 3 then okG [[b2i (lookupSchema T (T.modDatasetsConfig, n ++ strConfig)).isSome]]
-    else if kind = 4 then okG [[b2i (resolves T.modules (T.modSubsample, n ++ strMaskFunc))]]
+    else if kind = 3 then okG [[b2i (lookupSchema T (datasetConfigTarget n)).isSome]]
+    else if kind = 4 then okG [[b2i (resolves T.modules (maskFuncTarget n))]]
     else "err BadOp"
   | "resolve", [[2], name, eng] =>
     okG [[b2i (resolves T.modules (engineTarget (nats name) (if eng.isEmpty then none else some (nats eng))))]]
